@@ -74,7 +74,10 @@ type assetJ struct {
 }
 
 type hOp struct {
-	Kind string `json:"kind"` // params | create | claim | block
+	Kind string `json:"kind"` // params | create | claim | block | reimport | skip
+	// skip: an operation the generator left out by construction (Note names the excluded signature);
+	// claim: Note is set when the generator replaced a right secret by a wrong one for the same reason
+	Note string `json:"note,omitempty"`
 	// params: the complete asset list handed to MsgUpdateParams by the authority
 	Assets []assetJ `json:"assets,omitempty"`
 	// create
@@ -139,6 +142,7 @@ type contract struct {
 	seen      int    // last state the chain reported
 	secret    string // generator's secret (generation only)
 	claims    int    // claim attempts so far (classification)
+	imported  int    // number of restarts (genesis export+import) this contract went through while open
 }
 
 type assetM struct {
@@ -169,6 +173,13 @@ type counters struct {
 	rejectedCreates, sharedBucket, paramChanges, windowResets, windowResetsNZ, windowExact  int
 	limitHit, tbLimitHit, toEscrowClaimed, predMismatch, panics, overflows, blocks, maxLock int
 	f11Changes, f11ClaimRejected                                                            int
+	// restarts
+	reimports, reimpOpenPlain, reimpOpenIn, reimpOpenOut, reimpForgot, reimpSupply, reimpAtExpiryM1 int
+	impPlainRefunded, impInRefunded, impOutRefunded, impClaimed, impTwice                           int
+	recreatedForgotten, claimForgotten                                                              int
+	// parameter-change shapes
+	delist, delistLive, relist, relistLive, relistNewParams, deactivateBusy, reactivate, reactivateBusy int
+	deputyChangedBusy, limitBelowCommitted, firstAddWhileOpen, emptyList                                int
 }
 
 type machine struct {
@@ -182,11 +193,20 @@ type machine struct {
 	installed bool
 	n         counters
 	why       map[string]int // refused creates by predicted reason (reported with VERIF_C03_DEBUG)
+	// what a restart forgets: the htlc genesis carries only OPEN contracts, so closed ones are gone afterwards.
+	// Their effect on the supply counters stays (the supply records are carried): curBase = minted minus burned by
+	// forgotten completed transfers, strandedBase = what forgotten contracts paid out to the escrow account itself.
+	forgotten    []*contract
+	forgottenID  map[string]*contract
+	curBase      map[string]*big.Int
+	strandedBase map[string]*big.Int
+	skipped      map[string]int // exclusions by construction, by signature
 }
 
 func newMachine(mode string) *machine {
 	c := env().NewCase()
-	return &machine{mode: mode, c: c, byID: map[string]*contract{}, assets: map[string]*assetM{}, prevTime: chain.GenesisTimeDefault}
+	return &machine{mode: mode, c: c, byID: map[string]*contract{}, assets: map[string]*assetM{}, prevTime: chain.GenesisTimeDefault,
+		forgottenID: map[string]*contract{}, curBase: map[string]*big.Int{}, strandedBase: map[string]*big.Int{}, skipped: map[string]int{}}
 }
 
 func newC03() pbt.Machine[hOp] { return newMachine("C03") }
@@ -309,10 +329,30 @@ func validAssets(as []assetJ, nUsers int) bool {
 	return true
 }
 
+func (a *assetM) live() bool {
+	return a.cur.Sign() > 0 || a.in.Sign() > 0 || a.out.Sign() > 0
+}
+
+func (a *assetM) busy() bool { return a.in.Sign() > 0 || a.out.Sign() > 0 }
+
+// applyParams: the model of an accepted parameter update.  The supply record of an asset belongs to its denom,
+// not to its listing: an asset that leaves the list keeps its record (counters and window state frozen while it
+// is not listed) and gets it back when it is listed again.
 func (m *machine) applyParams(as []assetJ) {
 	old := m.assets
+	wasInstalled := m.installed
+	wasPresent := map[string]bool{}
+	openOther := func(denom string) bool {
+		for d, a := range old {
+			if d != denom && a.busy() {
+				return true
+			}
+		}
+		return false
+	}
 	m.order = m.order[:0]
-	for _, a := range old {
+	for d, a := range old {
+		wasPresent[d] = a.present
 		a.present = false
 	}
 	for _, aj := range as {
@@ -320,7 +360,8 @@ func (m *machine) applyParams(as []assetJ) {
 		na.present = true
 		if o, ok := old[aj.Denom]; ok {
 			na.hasSupply, na.in, na.out, na.cur, na.tlc, na.elapsed = o.hasSupply, o.in, o.out, o.cur, o.tlc, o.elapsed
-			if o.raw == aj {
+			relisted := !wasPresent[aj.Denom]
+			if o.raw == aj && !relisted {
 				na.okLimit, na.okTBL = o.okLimit, o.okTBL
 			} else {
 				// new parameter epoch: the "while unchanged" clauses start from how the new parameters fit now
@@ -328,21 +369,57 @@ func (m *machine) applyParams(as []assetJ) {
 				na.okTBL = !aj.TimeLimited || na.tlc.Cmp(na.tbl) <= 0
 				m.n.paramChanges++
 			}
+			if relisted {
+				m.n.relist++
+				if na.live() {
+					m.n.relistLive++
+				}
+				if o.raw != aj {
+					m.n.relistNewParams++
+				}
+			} else {
+				if o.raw.Active && !aj.Active && na.busy() {
+					m.n.deactivateBusy++
+				}
+				if !o.raw.Active && aj.Active {
+					m.n.reactivate++
+					if na.busy() {
+						m.n.reactivateBusy++
+					}
+				}
+				if o.raw.Deputy != aj.Deputy && na.busy() {
+					m.n.deputyChangedBusy++
+				}
+			}
 		} else {
 			na.okLimit, na.okTBL = true, true
+			if wasInstalled && openOther(aj.Denom) {
+				m.n.firstAddWhileOpen++
+			}
 		}
 		if !na.withinLimits() {
 			m.n.f11Changes++
+			m.n.limitBelowCommitted++
 		}
 		m.assets[aj.Denom] = na
 		m.order = append(m.order, aj.Denom)
 	}
-	for _, a := range m.assets {
-		if !a.present && (a.in.Sign() > 0 || a.out.Sign() > 0) {
+	for d, a := range m.assets {
+		if a.present || !wasPresent[d] {
+			continue
+		}
+		m.n.delist++
+		if a.live() {
+			m.n.delistLive++
+		}
+		if a.busy() {
 			m.n.f11Changes++
 		}
 	}
-	m.installed = len(as) > 0
+	if len(as) == 0 && wasInstalled {
+		m.n.emptyList++
+	}
+	m.installed = m.installed || len(as) > 0
 }
 
 // modelBegin is the model's begin-block: refunds of everything due exactly now, then the limit windows.
@@ -351,6 +428,16 @@ func (m *machine) modelBegin(h int64, now time.Time) (due []*contract) {
 		if ct.state == stOpen && ct.expiry == uint64(h) {
 			ct.state = stRefunded
 			due = append(due, ct)
+			if ct.imported > 0 {
+				switch {
+				case !ct.transfer:
+					m.n.impPlainRefunded++
+				case ct.dir == dirIn:
+					m.n.impInRefunded++
+				default:
+					m.n.impOutRefunded++
+				}
+			}
 			if ct.transfer {
 				if a := m.assets[ct.coins[0].denom]; a != nil {
 					switch ct.dir {
@@ -527,8 +614,132 @@ func (m *machine) Apply(op hOp) error {
 		return m.applyClaim(op)
 	case "block":
 		return m.applyBlocks(op)
+	case "reimport":
+		return m.applyReimport(op)
+	case "skip":
+		m.skipped[op.Note]++
+		return m.afterStep()
 	}
 	return nil
+}
+
+// importNeedsCompatibleParams: the htlc genesis import asserts that every supply record belongs to a listed asset
+// and sits inside that asset's limit, and that the asset of every open transfer is listed and active.  After a
+// parameter change that delists / deactivates an asset in use or lowers a limit below what is committed (F11 of
+// DESIGN section 5, decided to be a governance precondition) the module's own export is therefore refused.
+func (m *machine) importNeedsCompatibleParams() bool {
+	for _, a := range m.assets {
+		if !a.hasSupply {
+			continue
+		}
+		if !a.present {
+			return true
+		}
+		if sum(a.cur, a.in).Cmp(a.limit) > 0 || a.out.Cmp(a.limit) > 0 {
+			return true
+		}
+	}
+	for _, ct := range m.contracts {
+		if ct.state == stOpen && ct.transfer {
+			if a := m.assets[ct.coins[0].denom]; a == nil || !a.present || !a.raw.Active {
+				return true
+			}
+		}
+	}
+	return false
+}
+
+// applyReimport: the module is restarted from its own exported genesis and the history continues.  The genesis
+// carries the parameters, the supply records, the previous block time and the OPEN contracts; closed contracts
+// are forgotten (the model forgets them too: nothing is asserted about their ids afterwards except that a claim
+// on them is still refused).
+func (m *machine) applyReimport(op hOp) error {
+	var before chain.Sheet
+	if m.c03() {
+		before = m.c.Snapshot()
+	}
+	reported := make([]int, len(m.contracts))
+	for i, ct := range m.contracts {
+		h, err := m.query(ct.id)
+		if err != nil || h == nil {
+			return pbt.Failf(m.sig("query-failed"), "contract %s cannot be queried before the restart: %v", ct.id, err)
+		}
+		reported[i] = int(h.State)
+	}
+	exported, stage, err := m.c.Reimport(htlctypes.ModuleName)
+	if err != nil {
+		ex := string(exported)
+		if len(ex) > 1500 {
+			ex = ex[:1500] + "..."
+		}
+		return pbt.Failf(m.sig("reimport-"+stage), "height %d: restart of the htlc module from its own export failed: %v; exported: %s", m.c.Height(), err, ex)
+	}
+	m.n.reimports++
+	h := uint64(m.c.Height())
+	keep := make([]*contract, 0, len(m.contracts))
+	var nPlain, nIn, nOut int
+	for i, ct := range m.contracts {
+		if reported[i] != stOpen {
+			if reported[i] == stCompleted {
+				d, amt := ct.coins[0].denom, ct.coins[0].amt
+				if ct.transfer && ct.dir == dirIn {
+					addTo(m.curBase, d, amt)
+				}
+				if ct.transfer && ct.dir == dirOut {
+					addTo(m.curBase, d, new(big.Int).Neg(amt))
+				}
+				if ct.toIdx == toEscrow && (!ct.transfer || ct.dir == dirIn) {
+					for _, c := range ct.coins {
+						addTo(m.strandedBase, c.denom, c.amt)
+					}
+				}
+			}
+			delete(m.byID, ct.id)
+			m.forgotten = append(m.forgotten, ct)
+			m.forgottenID[ct.id] = ct
+			m.n.reimpForgot++
+			continue
+		}
+		ct.imported++
+		if ct.imported >= 2 {
+			m.n.impTwice++
+		}
+		if ct.expiry == h+1 {
+			m.n.reimpAtExpiryM1++
+		}
+		switch {
+		case !ct.transfer:
+			nPlain++
+		case ct.dir == dirIn:
+			nIn++
+		default:
+			nOut++
+		}
+		keep = append(keep, ct)
+	}
+	m.contracts = keep
+	if nPlain > 0 {
+		m.n.reimpOpenPlain++
+	}
+	if nIn > 0 {
+		m.n.reimpOpenIn++
+	}
+	if nOut > 0 {
+		m.n.reimpOpenOut++
+	}
+	for _, a := range m.assets {
+		if a.hasSupply && a.cur.Sign() > 0 {
+			m.n.reimpSupply++
+			break
+		}
+	}
+	if m.c03() {
+		if d := chain.Diff(before, m.c.Snapshot()); !d.Empty() {
+			return pbt.Failf("C03/reimport-moved-coins", "height %d: restart of the htlc module moved coins: %s", m.c.Height(), d)
+		}
+		return m.c03States()
+	}
+	return m.c04Boundary("after the restart")
 }
 
 func (m *machine) applyParamsOp(op hOp) error {
@@ -653,6 +864,11 @@ func (m *machine) applyCreate(op hOp) error {
 	}
 	m.contracts = append(m.contracts, ct)
 	m.byID[ct.id] = ct
+	if _, was := m.forgottenID[ct.id]; was {
+		// the id of a closed contract that a restart dropped: the record is gone, nothing forbids using the id again
+		m.n.recreatedForgotten++
+		delete(m.forgottenID, ct.id)
+	}
 	if m.c03() {
 		if d := chain.Diff(before, m.c.Snapshot()); !chain.SameDelta(d, exp.Delta()) {
 			return pbt.Failf("C03/create-delta", "create %s moved [%s], expected [%s]", ct.id, d, exp.Delta())
@@ -682,6 +898,9 @@ func (m *machine) unchanged(before chain.Sheet, img, what string, res chain.Resu
 }
 
 func (m *machine) applyClaim(op hOp) error {
+	if op.Note != "" {
+		m.skipped[op.Note]++
+	}
 	id := strings.ToLower(op.ID)
 	ct := m.byID[id]
 	wellFormed := isHex(op.ID, 64) && isHex(op.Secret, 64)
@@ -692,6 +911,9 @@ func (m *machine) applyClaim(op hOp) error {
 	case ct == nil:
 		why = "unknown-id"
 		m.n.unknownID++
+		if _, was := m.forgottenID[id]; was {
+			m.n.claimForgotten++ // second claim / claim after refund of a contract a restart dropped
+		}
 	case ct.state != stOpen:
 		why = "not-open"
 		if ct.state == stCompleted {
@@ -784,6 +1006,9 @@ func (m *machine) applyClaim(op hOp) error {
 	}
 	if ct.state == stOpen {
 		ct.state = stCompleted
+		if ct.imported > 0 {
+			m.n.impClaimed++
+		}
 		if ct.toIdx == toEscrow && (!ct.transfer || ct.dir == dirIn) {
 			m.n.toEscrowClaimed++
 		}
@@ -955,6 +1180,12 @@ func (m *machine) c04Boundary(where string) error {
 	at := fmt.Sprintf("height %d %s", m.c.Height(), where)
 	escrowExp, stranded := map[string]*big.Int{}, map[string]*big.Int{}
 	inExp, outExp, curExp := map[string]*big.Int{}, map[string]*big.Int{}, map[string]*big.Int{}
+	for d, v := range m.curBase {
+		addTo(curExp, d, v)
+	}
+	for d, v := range m.strandedBase {
+		addTo(stranded, d, v)
+	}
 	for _, ct := range m.contracts {
 		h, err := m.query(ct.id)
 		if err != nil || h == nil {
@@ -990,7 +1221,7 @@ func (m *machine) c04Boundary(where string) error {
 	}
 	keys, _ := m.c.RawStore(htlctypes.StoreKey, htlctypes.HTLCKey)
 	if len(keys) != len(m.contracts) {
-		return pbt.Failf("C04/contract-count", "%s: %d contract records stored, %d contracts were created", at, len(keys), len(m.contracts))
+		return pbt.Failf("C04/contract-count", "%s: %d contract records stored, %d contracts were created (not counting closed ones dropped by a restart)", at, len(keys), len(m.contracts))
 	}
 	got := map[string]*big.Int{}
 	for _, c := range m.c.E.App.BankKeeper.GetAllBalances(m.c.Ctx, m.escrow()) {
@@ -1112,6 +1343,35 @@ func (m *machine) Classify() (bool, []string) {
 	add(n.panics, "handler-panic")
 	add(n.overflows, "overflow")
 	add(n.f11Changes, "f11-incompatible-param-change")
+	add(n.reimports, "reimport")
+	add(n.reimpOpenPlain, "reimport-with-open-plain")
+	add(n.reimpOpenIn, "reimport-with-open-incoming")
+	add(n.reimpOpenOut, "reimport-with-open-outgoing")
+	add(n.reimpForgot, "reimport-forgets-closed")
+	add(n.reimpSupply, "reimport-with-nonzero-supply")
+	add(n.reimpAtExpiryM1, "reimport-at-expiry-1")
+	add(n.impPlainRefunded, "imported-plain-refunded")
+	add(n.impInRefunded, "imported-incoming-refunded")
+	add(n.impOutRefunded, "imported-outgoing-refunded")
+	add(n.impClaimed, "imported-claimed")
+	add(n.impTwice, "imported-twice")
+	add(n.recreatedForgotten, "recreated-forgotten-id")
+	add(n.claimForgotten, "claim-forgotten-id")
+	add(n.delist, "delist")
+	add(n.delistLive, "delist-live")
+	add(n.relist, "relist")
+	add(n.relistLive, "relist-live")
+	add(n.relistNewParams, "relist-new-params")
+	add(n.deactivateBusy, "deactivate-with-open-transfers")
+	add(n.reactivate, "reactivate")
+	add(n.reactivateBusy, "reactivate-with-open-transfers")
+	add(n.deputyChangedBusy, "deputy-changed-with-open-transfers")
+	add(n.limitBelowCommitted, "limit-below-committed")
+	add(n.firstAddWhileOpen, "first-add-while-others-open")
+	add(n.emptyList, "empty-asset-list")
+	for k, v := range m.skipped {
+		add(v, k)
+	}
 	if len(m.contracts) >= 5 {
 		cl = append(cl, "contracts>=5")
 	}
